@@ -6,7 +6,7 @@
    |C| = len (uni_chks tc c): the sub-checks of the normalised root check and of every named check,
          their indirection-allowed versions and the own-attribute checks of both;
    fan_o / fan_c: the largest number of members of an object / of direct sub-checks of a check. *)
-From PV Require Import Model.TypeCheck Proofs.TypeCheckLoop.
+From PV Require Import Model.TypeCheck Proofs.TypeCheckLoop Proofs.TypeCheckTerm Proofs.TypeCheckSound.
 From Coq Require Import Lia.
 
 (* the bound is explicit: with P = |O|·|C|, K = fan_c + 3, M = 2 + K·(fan_o + fan_c + 2):
@@ -17,6 +17,42 @@ Theorem C09_bound_explicit : forall oc tc o c,
   let M := 2 + K * (fan_o (uni_objs oc o) + fan_c (uni_chks tc c) + 2) in
   step_bound oc tc o c = P * M * (P + 1) + P + K + 2.
 Proof. intros. unfold step_bound, bound_push, bound_K, P, K, M. lia. Qed.
+
+(* every object graph (cyclic or not), every context of named checks (recursive or not), every
+   root check: the work loop stops within [step_bound] iterations — never [Stuck] — and the total
+   number of iterations of the three loops (work loop, get_next_check, unwind) is at most
+   5·step_bound + 2.  (Between two failures of alternatives at most P·M + K + 2 iterations; every
+   failure that makes the checker forget examined checks adds a new pair to the failed
+   alternatives, so there are at most P of those.) *)
+Theorem C09_terminates : forall opq oc tc o c r,
+  resolve tc c = Some r ->
+  fst (check opq oc tc o c) <> Stuck /\
+  snd (check opq oc tc o c) <= 5 * step_bound oc tc o (norm_chk (rep_chk r)) + 2.
+Proof. exact check_terminates. Qed.
+
+Theorem C09_terminates_fuel : forall opq oc tc o c r n,
+  resolve tc c = Some r -> step_bound oc tc o (norm_chk (rep_chk r)) <= n ->
+  fst (check_fuel opq oc tc n o c) <> Stuck /\
+  snd (check_fuel opq oc tc n o c) <= 5 * step_bound oc tc o (norm_chk (rep_chk r)) + 2.
+Proof. exact check_fuel_terminates. Qed.
+
+(* the verdict is independent of the fuel beyond the bound *)
+Theorem C09_fuel_independent : forall opq oc tc o c r n m,
+  resolve tc c = Some r -> step_bound oc tc o (norm_chk (rep_chk r)) <= n -> n <= m ->
+  check_fuel opq oc tc m o c = check_fuel opq oc tc n o c.
+Proof. exact check_fuel_deterministic. Qed.
+
+(* no panic: on a well-formed specification ([wf_univ], computable: every name mentioned in the
+   normalised specification is defined, no disjunction is empty) the unreachable!() / index / assert
+   sites of the loop are dead — the verdict is Accept or Reject *)
+Theorem C09_check_never_panics : forall opq oc tc o c,
+  (forall r, resolve tc c = Some r -> wf_univ tc (norm_chk (rep_chk r)) = true) ->
+  fst (check opq oc tc o c) <> Panicked.
+Proof. exact check_never_panics_wf. Qed.
+(* the side condition is needed: an empty disjunction reaches unreachable!() *)
+Example C09_empty_disjunct_panics :
+  fst (check opq_default [] [] (OInt 5) (CRep (TDisj []) None IAllowed)) = Panicked.
+Proof. vm_compute. reflexivity. Qed.
 
 Theorem C09_unresolved_root : forall opq oc tc o c,
   resolve tc c = None -> check opq oc tc o c = (SpecErr EUnknown, 0).
@@ -53,6 +89,10 @@ Example C09_self_reference_example :
 Proof. vm_compute. reflexivity. Qed.
 
 Print Assumptions C09_bound_explicit.
+Print Assumptions C09_terminates.
+Print Assumptions C09_terminates_fuel.
+Print Assumptions C09_fuel_independent.
+Print Assumptions C09_check_never_panics.
 Print Assumptions C09_unresolved_root.
 Print Assumptions C09_deterministic.
 Print Assumptions C09_single_loop.
